@@ -15,7 +15,7 @@ func DefaultAgents() ([]*Agent, map[string]string) {
 		return &Agent{ID: id, Hostname: host, Attrs: map[string]string{"machine_id": host}, CPU: 16, Mem: 32768, Ports: [][2]uint64{{9000, 40000}}}
 	}
 	return []*Agent{mk("agent-a", "hosta"), mk("agent-b", "hostb"), mk("agent-c", "hostc")},
-		map[string]string{"hosta": "TSA", "hostb": "TSB", "hostc": "TSC"}
+		map[string]string{"hosta": "ITS", "hostb": "TPC", "hostc": "TOF"}
 }
 
 var (
